@@ -121,6 +121,21 @@ Proof.
   unfold not_less_than in H. rewrite Hy in H. discriminate.
 Qed.
 
+(* BinarySearchFunc on an ascending slice with "a is less than the target": the lower bound *)
+Lemma BinarySearchFunc_ascending (less : T -> T -> bool) : StrictWeakOrder less -> forall l target,
+  Sorted (le_of less) l ->
+  exists r, BinarySearchFunc l (fun a => less a target) = Ok (Z.of_nat r) /\ r <= length l /\
+    (forall k x, k < r -> nth_error l k = Some x -> less x target = true) /\
+    (forall k x, r <= k -> nth_error l k = Some x -> less x target = false).
+Proof.
+  intros W l target Hs.
+  destruct (BinarySearchFunc_spec (fun a => less a target) l (sorted_partitioned less W l target Hs))
+    as (r & E & Hr & Hlo & Hhi).
+  exists r. split; [exact E|]. split; [exact Hr|]. split.
+  - intros k x Hk Hx. apply negb_false_iff. exact (Hlo k x Hk Hx).
+  - intros k x Hk Hx. apply negb_true_iff. exact (Hhi k x Hk Hx).
+Qed.
+
 Context (lt ge : T -> T -> bool).
 Hypothesis TO : StrictTotalOrder lt.
 Hypothesis ge_lt : forall a b, ge a b = negb (lt a b).
@@ -242,11 +257,24 @@ Lemma ShuffleRand_deterministic l (g1 g2 : G) :
 Proof. unfold ShuffleRand, rand_Shuffle. intros ->. reflexivity. Qed.
 End Shuffling.
 
-Lemma list_shuffle_swaps_spec : shuffle_spec list_shuffle_swaps.
+Lemma fisher_yates_swaps_spec : shuffle_spec fisher_yates_swaps.
 Proof.
-  intros g n i j Hin. unfold list_shuffle_swaps in Hin. apply filter_In in Hin as [_ H]. cbn [fst snd] in H.
-  repeat (apply andb_true_iff in H as [H ?]). lia.
+  intros g n i j. unfold fisher_yates_swaps.
+  assert (H : forall k g, k < Z.to_nat n -> In (i, j) (fisher_yates_from k g) -> (0 <= i < n)%Z /\ (0 <= j < n)%Z).
+  { induction k as [|k IH]; intros g' Hk Hin; [contradiction|]. cbn [fisher_yates_from In] in Hin.
+    destruct Hin as [E|Hin]; [|apply (IH (tl g')); [lia|exact Hin]].
+    injection E as <- <-.
+    pose proof (Z.mod_pos_bound (hd 0%Z g') (Z.of_nat (S k) + 1) ltac:(lia)). lia. }
+  destruct (Z.to_nat n) as [|m] eqn:E; [cbn; contradiction|].
+  apply H. lia.
 Qed.
+
+(* the recorded-swaps generator: if the recorded pairs are in range, a permutation; the
+   first out-of-range pair makes the model panic like Go would *)
+Lemma recorded_swaps_perm {T} (l : list T) (g : list (Z * Z)) :
+  (forall i j, In (i, j) g -> (0 <= i < lenZ l)%Z /\ (0 <= j < lenZ l)%Z) ->
+  exists l', ShuffleRand list_shuffle_swaps l g = Ok l' /\ Permutation l l'.
+Proof. intros H. unfold ShuffleRand, rand_Shuffle, list_shuffle_swaps. apply swaps_perm. exact H. Qed.
 
 (* the orders of the correspondence harness *)
 Lemma Z_pair_key_swo : StrictWeakOrder (fun a b : Z * Z => (fst a <? fst b)%Z).
